@@ -3,11 +3,13 @@
 package main
 
 import (
+	"encoding/json"
 	"fmt"
 	"os"
 
 	"verif/mc/core"
 	"verif/mc/props/c08"
+	"verif/mc/props/c09"
 	"verif/mc/rs"
 	"verif/mc/typed"
 )
@@ -51,9 +53,69 @@ func main() {
 			r.Assume("reference schema semantics mc/rs; corners the schema specification leaves undefined are outside V(T) (tuple absent-then-present, delimiter inside stringjoin fields)")
 			c08.Run(r, engines(), fams)
 		}
+	case "C09":
+		if replay {
+			c09.Replay(r, engines(), fams, rf.Mode, rf.Case)
+		} else {
+			r.Rule("every root type of the schema families × both levels: the conforming tree of every typed value and every single local mutation of it at every position (entry/element dropped, duplicated adjacent and at the end with same and different value, renamed to every name the schema mentions incl. the other level's name, added, swapped; value retyped to every other kind, nulled, int→uint64>int64; strings replaced by every schema name, with delimiters added; lists extended/truncated) × routes {AssembleEntry, AssembleKey+AssembleValue, relaxed dag-cbor decode of a raw encoding so that duplicate keys reach the assembler} × engines; accepted ⇔ the reference acceptance relation, rejection by error never panic, accepted value = reference typed value. Non-trivial = mutated inputs; distinct by (type, level, route, input).")
+			r.Assume("reference acceptance relations mc/rs AcceptType/AcceptRepr")
+			c09.Run(r, engines(), fams, false)
+		}
+	case "C13":
+		if replay {
+			if rf.Mode == "generate" {
+				generationFindings(r)
+			} else {
+				c09.Replay(r, engines(), fams, rf.Mode, rf.Case)
+			}
+		} else {
+			r.Rule("programs: every schema family within the generator's feature set, generated afresh by gengo.Generate from the working tree and compiled (generation panic or compile error = violation); inputs: the conforming trees of every typed value and every local mutation of them at both levels through three routes (the C09 input space); oracle: lock-step — bindnode accepts ⇔ generated code accepts, and on acceptance the type-level view, the representation view and the dag-cbor bytes are identical; neither panics. Non-trivial = mutated inputs; distinct by (type, level, route, input).")
+			r.Assume("pure differential check: where both engines share a mistake only C08/C09 (reference semantics) can see it")
+			generationFindings(r)
+			c09.Run(r, engines(), fams, true)
+		}
 	default:
 		fmt.Fprintf(os.Stderr, "unknown property %s\n", id)
 		os.Exit(2)
 	}
 	os.Exit(r.Finish())
+}
+
+// generationFindings turns the generator stage's report (mc/gen_out/report.json) into findings.
+func generationFindings(r *core.Run) {
+	type rep struct {
+		Family     string `json:"family"`
+		Types      int    `json:"types"`
+		Generated  bool   `json:"generated"`
+		Panic      string `json:"panic"`
+		Compiled   bool   `json:"compiled"`
+		CompileErr string `json:"compile_error"`
+	}
+	b, err := os.ReadFile(core.VerifDir + "/mc/gen_out/report.json")
+	if err != nil {
+		fmt.Fprintf(os.Stderr, "CHECK-BROKEN: generator stage report missing: %v\n", err)
+		os.Exit(2)
+	}
+	var reps []rep
+	if err := json.Unmarshal(b, &reps); err != nil {
+		fmt.Fprintf(os.Stderr, "CHECK-BROKEN: %v\n", err)
+		os.Exit(2)
+	}
+	for _, p := range reps {
+		r.States.Add(1)
+		r.Transitions.Add(int64(p.Types))
+		r.Add("generated_types", int64(p.Types))
+		switch {
+		case !p.Generated:
+			r.Report("generate", p, []core.Finding{core.F("generate/gen-panic("+core.Class(p.Panic)+")", "family %s: %s", p.Family, p.Panic)})
+		case !p.Compiled:
+			r.Report("generate", p, []core.Finding{core.F("generate/compile-error("+p.Family+")", "family %s: %s", p.Family, p.CompileErr)})
+		default:
+			r.Outcome("generated+compiled")
+		}
+	}
+	if len(reps) == 0 {
+		fmt.Fprintln(os.Stderr, "CHECK-BROKEN: no family was generated")
+		os.Exit(2)
+	}
 }
